@@ -101,20 +101,22 @@ func buildTxs(w *world, x *execCtx, specs []*txSpec, height int64) []module.Tran
 // ---- one execution of the block ------------------------------------------------------
 
 type execResult struct {
-	name     string
-	level    int
-	x        *execCtx
-	out      execOutcome
-	receipts []module.Receipt
+	name         string
+	level        int
+	x            *execCtx
+	out          execOutcome
+	receipts     []module.Receipt
 	lateReceipts []module.Receipt // receipts found on a transition whose execution failed
-	rctErr   string
-	result   []byte
-	final    *finalState
-	hash     []byte
-	finErr   error
+	rctErr       string
+	result       []byte
+	final        *finalState
+	hash         []byte
+	finErr       error
 }
 
-func (r *execResult) ok() bool { return r.out.finished && r.out.validateErr == nil && r.out.execErr == nil }
+func (r *execResult) ok() bool {
+	return r.out.finished && r.out.validateErr == nil && r.out.execErr == nil
+}
 
 func execute(rc *kit.RunCtx, w *world, specs []*txSpec, level int, scheduled bool, name string) *execResult {
 	res := &execResult{name: name, level: level}
